@@ -36,27 +36,55 @@ def main():
     finally:
         sh('git -C /repo worktree remove --force %s' % scratch)
         shutil.rmtree(scratch, ignore_errors=True)
-    # now our checks against the change applied to /repo
-    rc, o = sh('git -C /repo status --short')
-    assert o.strip() == '', 'repo not clean: ' + o
-    rc, o = sh('git -C /repo apply %s/patch.diff' % dst)
+    # now our checks against the change
     results = {}
-    try:
-        for p in [prop] + extra:
-            t0 = time.time()
-            rc, o = sh('/venv/bin/python harness/check.py %s --tier quick' % p, cwd='/verif', timeout=3000)
-            viol = [l for l in o.split('\n') if l.startswith('VIOLATION')]
-            results[p] = dict(rc=rc, violations=viol[:4], wall=round(time.time() - t0, 1))
-            # keep the first replay for the record
-            if viol:
-                rp = viol[0].split('replay=')[1].split()[0]
-                try:
-                    results[p]['replay'] = json.load(open('/verif/' + rp))
-                except Exception:
-                    pass
-    finally:
-        sh('git -C /repo checkout -- .')
-        sh('git -C /repo clean -fdq mininec')
+    if os.environ.get('SEEDCHECK_MODE') == 'wt':
+        # while something else is using /repo: a second scratch worktree with the change, checks pointed at it
+        wt = '/tmp/vscratch2_%s' % sid
+        out = '/tmp/vscratch2_%s_out' % sid
+        sh('git -C /repo worktree remove --force %s' % wt)
+        sh('git -C /repo worktree add -q --detach %s HEAD' % wt)
+        sh('git apply %s/patch.diff' % dst, cwd=wt)
+        env2 = dict(os.environ, PMN_REPO=wt, PYTHONPATH=wt, PMN_OUT=out)
+        try:
+            for p in [prop] + extra:
+                t0 = time.time()
+                rc, o = sh('/venv/bin/python harness/check.py %s --tier quick' % p, cwd='/verif', env=env2, timeout=3000)
+                viol = [l for l in o.split('\n') if l.startswith('VIOLATION')]
+                results[p] = dict(rc=rc, violations=viol[:4], wall=round(time.time() - t0, 1), mode='scratch worktree via PMN_REPO')
+                if viol:
+                    rp = viol[0].split('replay=')[1].split()[0]
+                    try:
+                        results[p]['replay'] = json.load(open(os.path.join(out, rp)))
+                    except Exception:
+                        pass
+                elif rc != 0:
+                    results[p]['tail'] = o[-800:]
+        finally:
+            sh('git -C /repo worktree remove --force %s' % wt)
+            shutil.rmtree(wt, ignore_errors=True)
+            shutil.rmtree(out, ignore_errors=True)
+            sh('/venv/bin/python harness/extract_constants.py', cwd='/verif/lean')
+    else:
+        rc, o = sh('git -C /repo status --short')
+        assert o.strip() == '', 'repo not clean: ' + o
+        rc, o = sh('git -C /repo apply %s/patch.diff' % dst)
+        try:
+            for p in [prop] + extra:
+                t0 = time.time()
+                rc, o = sh('/venv/bin/python harness/check.py %s --tier quick' % p, cwd='/verif', timeout=3000)
+                viol = [l for l in o.split('\n') if l.startswith('VIOLATION')]
+                results[p] = dict(rc=rc, violations=viol[:4], wall=round(time.time() - t0, 1))
+                # keep the first replay for the record
+                if viol:
+                    rp = viol[0].split('replay=')[1].split()[0]
+                    try:
+                        results[p]['replay'] = json.load(open('/verif/' + rp))
+                    except Exception:
+                        pass
+        finally:
+            sh('git -C /repo checkout -- .')
+            sh('git -C /repo clean -fdq mininec')
     meta['checks_with_change'] = results
     meta['ran'] = ['scratch worktree: git apply; pytest (pinned command); demo.py with and without the change',
                    'git -C /repo apply patch.diff; harness/check.py <property> --tier quick; git -C /repo checkout -- .']
